@@ -426,6 +426,10 @@ static void observe (world_t *w, int kind, int st, int full)
 			int nu, rk = gf2_rank_unknown (Href, known, &nu);
 			int recoverable = rk == nu;
 			int recovered = G.codec == 5 ? (gst == OF_STATUS_OK && navail == k) : complete;	/* C16 speaks of recovery, not of the completion flag */
+			if (recoverable && recovered) {	/* "recovers" means the right values */
+				int q;
+				for (q = 0; q < k; q++) if (w->src_tab[q] && memcmp (w->src_tab[q], CW[q], (size_t) G.len)) { snprintf (sig, sizeof sig, "codec=%s|call=FINISH|kind=recovered-with-wrong-values|api=%s", cn, w->path == 2 ? "SAS" : "DWS"); viol ("C03", sig); break; }
+			}
 			if (recoverable != recovered) {
 				snprintf (sig, sizeof sig, "codec=%s|call=FINISH|kind=%s|api=%s", cn, recoverable ? "recoverable-but-not-recovered" : "complete-though-not-determined", w->path == 2 ? "SAS" : "DWS");
 				viol ("C03", sig);
@@ -862,12 +866,15 @@ static void bfs_config (const cfg_t *c, int sas_limit, long state_cap, long audi
 /* ------------------------------------------------------------------ scenario executor (any n) */
 /* token grammar (comma separated):  D<e> | F | Sm<hex> | A<spec> | B<spec> | R<spec> | S<spec>
  *   A: DWS in ascending ESI order, B: descending, R: repairs (ascending) then sources (ascending), S: SAS
+ *   Z: LDPC only: sources outside equation 0 (ascending), then the sources of equation 0, then repairs (ascending): the
+ *      last source of equation 0 starts the longest possible peeling cascade along the staircase
  *   C / E / G: DWS in the order e = (a*i + 1) mod n, i = 0..n-1, with a = the first value >= 7 / 31 / n/2+1 coprime with n (scattered arrival)
  *   spec:  a-<e.e.e>   all except the listed ESIs (list may be empty)
  *          o<e.e.e>    only the listed ESIs
  *          w<a>+<w>    cyclic window [a, a+w) received
  *          p<p>.<q>    e lost iff e mod p == q
  *          x<e.e>/<e.e> all sources except the first list, only the repairs of the second list
+ *          y<e>        (LDPC) all sources except e, only the repair symbols of the equations containing e
  *          m<hex>      bit mask (n <= 64)                                                          */
 static int parse_spec (const char *s, unsigned char *mem)
 {
@@ -890,6 +897,12 @@ static int parse_spec (const char *s, unsigned char *mem)
 		while (*p && *p != '/') { e = (int) strtol (p, (char **) &p, 10); if (e >= 0 && e < G.k) mem[e] = 0; if (*p == '.') p++; }
 		if (*p == '/') p++;
 		while (*p && isdigit ((unsigned char) *p)) { e = (int) strtol (p, (char **) &p, 10); if (e >= G.k && e < n) mem[e] = 1; if (*p == '.') p++; }
+		return 1;
+	}
+	if (s[0] == 'y' && Href) {	/* y<e>: every source but e, plus the repair symbols p_j of the equations j that contain e */
+		int miss = atoi (s + 1), j;
+		for (e = 0; e < G.k; e++) mem[e] = (unsigned char) (e != miss);
+		if (miss >= 0 && miss < G.k) for (j = 0; j < G.r; j++) if (bm_get (Href, j, miss)) mem[G.k + j] = 1;
 		return 1;
 	}
 	if (s[0] == 'w') { int a, wd, i; if (sscanf (s + 1, "%d+%d", &a, &wd) != 2) return 0; for (i = 0; i < wd && i < n; i++) mem[(a + i) % n] = 1; return 1; }
@@ -923,6 +936,15 @@ static void run_scenario (const char *ops)
 		if (tok[0] == 'F') op_fin (w);
 		else if (tok[0] == 'D') op_dws (w, atoi (tok + 1), 1);
 		else if (tok[0] == 'S') { if (parse_spec (tok + 1, mem)) op_sas (w, mem); }
+		else if (tok[0] == 'Z' && Href) {
+			int cnt = 0, total = 0, pass;
+			if (!parse_spec (tok + 1, mem)) continue;
+			for (e = 0; e < G.n; e++) total += mem[e];
+			for (pass = 0; pass < 2; pass++)
+				for (e = 0; e < G.k; e++) if (mem[e] && bm_get (Href, 0, e) == pass) { cnt++; op_dws (w, e, G.n <= 64 || cnt == total || cnt % 16 == 0); }
+			for (e = G.k; e < G.n; e++) if (mem[e]) { cnt++; op_dws (w, e, 1); }
+			vf_stat_add (st_trans, total > 0 ? total - 1 : 0);
+		}
 		else if (tok[0] == 'C' || tok[0] == 'E' || tok[0] == 'G') {
 			int a = tok[0] == 'C' ? 7 : tok[0] == 'E' ? 31 : G.n / 2 + 1, i2, cnt = 0, total = 0, x, y, t2;
 			if (!parse_spec (tok + 1, mem)) continue;
@@ -1171,10 +1193,11 @@ static void build_large (int thorough, const char *which)
 		}
 	}
 	if (strstr (which, "ldpc")) {
-		static const int kr[][2] = {{100, 50}, {1000, 500}, {40, 20}, {255, 64}, {1000, 10}, {700, 6}, {3000, 12}, {200, 100}, {300, 40}, {90, 264}, {60, 300}};	/* the last two: more than 256 repair symbols (long peeling chains) */	/* the last three: equations with more than 255 symbols */
+		static const int kr[][2] = {{100, 50}, {1000, 500}, {40, 20}, {255, 64}, {1000, 10}, {700, 6}, {3000, 12}, {200, 100}, {300, 40}, {90, 264}, {60, 300}, {600, 520}};	/* the last two: more than 256 repair symbols (long peeling chains) */	/* the last three: equations with more than 255 symbols */
 		for (i = 0; i < (int) (sizeof kr / sizeof kr[0]); i++) {
 			int k = kr[i][0], r = kr[i][1], n = k + r, N1;
 			if (!thorough && k >= 1000 && r != 10) continue;
+			if (!thorough && k == 600 && 0) continue;
 			for (N1 = 3; N1 <= 5; N1++) {
 				int wl[6], wi, astep = thorough ? (n > 400 ? 7 : 1) : (n > 100 ? 17 : 5);
 				c0 = NCF; add_cfg (3, 0, k, r, N1, 1 + i, 4, 0, 0, 0);
@@ -1188,10 +1211,12 @@ static void build_large (int thorough, const char *which)
 						if (thorough) add_scen (c0, "Rw%d+%d", a, wl[wi]);
 					}
 				for (b = 2; b <= 7; b++) { if (b == 6) continue; for (q = 0; q < b; q++) { add_scen (c0, "Sp%d.%d,F", b, q); add_scen (c0, "Bp%d.%d,F", b, q); add_scen (c0, "Rp%d.%d", b, q); add_scen (c0, "Cp%d.%d,F", b, q); add_scen (c0, "Gp%d.%d", b, q); } }
+				/* long staircases: every single lost source, the rest arriving in cascade order, then only the repair symbols of its equations */
+				if (r >= 257) for (a = 0; a < k && a < (thorough ? 1000 : 120); a++) add_scen (c0, "Zy%d", a);
 				{
 					int step = thorough ? (n > 400 ? 5 : 1) : (n > 100 ? 13 : 3);
 					for (a = 0; a < n; a += step) {
-						add_scen (c0, "Aa-%d,F", a); add_scen (c0, "Ba-%d", a);
+						add_scen (c0, "Aa-%d,F", a); add_scen (c0, "Ba-%d", a); add_scen (c0, "Za-%d", a);
 						if (thorough && n <= 200) for (b = a + 1; b < n; b += 3) add_scen (c0, "Ra-%d.%d,F", a, b);
 					}
 				}
